@@ -43,6 +43,8 @@ use std::collections::BTreeMap;
 
 pub const COIN: u64 = 10_000_000;
 pub const MAX_FEE: u64 = 2_000_000;
+pub const BIG_TIP: u64 = 1 << 63;
+pub const BIG_COIN: u64 = (1 << 63) + 4_000_000;
 pub const GAS: u64 = 10_000;
 pub const STF_VERSION: u32 = fuel_core_types::blockchain::header::LATEST_STATE_TRANSITION_VERSION;
 pub const TIME0: u64 = (1u64 << 62) + 1_700_000_000;
@@ -261,7 +263,8 @@ impl Universe {
         for i in 0..48u8 {
             // even slots belong to A, a few to B
             let owner = if matches!(i, 2 | 31) { addr_b } else { addr_a };
-            coin(i, owner, COIN, base);
+            // two coins are large enough to carry a tip of 2^63
+            coin(i, owner, if matches!(i, 45 | 46) { BIG_COIN } else { COIN }, base);
         }
         coin(50, addr_a, 1000, asset_x);
         coin(51, pred_owner, COIN, base);
@@ -280,7 +283,8 @@ impl Universe {
         // messages owned by the predicate: a coin message and a retryable data message
         let m5: Message = MessageV1 { sender, recipient: pred_owner, nonce: nonce(5), amount: 5_000_000, data: vec![], da_height: DaBlockHeight(0) }.into();
         let m6: Message = MessageV1 { sender, recipient: pred_owner, nonce: nonce(6), amount: 3000, data: vec![0xD6; 4], da_height: DaBlockHeight(0) }.into();
-        let genesis_msgs = vec![m1.clone(), m2.clone(), m3.clone(), m4.clone(), m5.clone(), m6.clone()];
+        let m7 = msg(7, 1_000_000, vec![], 2);
+        let genesis_msgs = vec![m1.clone(), m2.clone(), m3.clone(), m4.clone(), m5.clone(), m6.clone(), m7.clone()];
 
         // ---- bulk transfers ----------------------------------------------------
         let mut bulk: Vec<Transaction> = Vec::with_capacity(bulk_n);
@@ -648,6 +652,31 @@ impl Universe {
                 .add_output(Output::contract(1, Bytes32::zeroed(), Bytes32::zeroed()))
                 .add_output(Output::change(addr_a, 0, base));
             push(name, b.finalize_as_transaction());
+        }
+
+        // 44 a coin input FIRST, then a message whose DA height (2) may be above the block's DA height
+        {
+            let mut b = script(vec![], vec![]);
+            b.add_unsigned_coin_input(ska, gid(44), COIN, base, z)
+                .add_unsigned_message_input(ska, sender, nonce(7), 1_000_000, vec![])
+                .add_output(Output::change(addr_a, 0, base));
+            push("coin_then_early_msg", b.finalize_as_transaction());
+        }
+        // 45, 46 tips of 2^63: the fees of the two together overflow u64 (the second is skipped with
+        // FeeOverflow after its VM run); the second one sends an outbox message
+        {
+            let mut b = script(vec![], vec![]);
+            b.tip(BIG_TIP).max_fee_limit(BIG_TIP + MAX_FEE);
+            b.add_unsigned_coin_input(ska, gid(45), BIG_COIN, base, z).add_output(Output::change(addr_a, 0, base));
+            push("bigtip", b.finalize_as_transaction());
+            let mut b = script(call_script(5), call_data(base, c1, 4, addr_b));
+            b.tip(BIG_TIP).max_fee_limit(BIG_TIP + MAX_FEE);
+            b.add_unsigned_coin_input(ska, gid(46), BIG_COIN, base, z)
+                .add_input(contract_in(c1))
+                .add_output(Output::contract(1, Bytes32::zeroed(), Bytes32::zeroed()))
+                .add_output(Output::variable(Address::zeroed(), 0, AssetId::zeroed()))
+                .add_output(Output::change(addr_a, 0, base));
+            push("bigtip_smo", b.finalize_as_transaction());
         }
 
         // ---- forced transactions and relayer script ---------------------------
